@@ -291,6 +291,7 @@ package pipe
 //@     props C06 C07 C11
 //@     opt takes=out,exx
 //@     opt overflow=off
+//@     opt tick=frequency
 //@     requires f != nil && out != exx
 //@     requires f.failfast() ==> slots(exx) >= 1
 //@     loop 0 invariant !closed(out) && !closed(exx) && !sawCancel && i >= 0
@@ -358,6 +359,7 @@ package pipe
 //@     props C06 C13
 //@     opt takes=ctl
 //@     opt overflow=off
+//@     opt tick=interval
 //@     requires cap(ctl) == ops && ops >= 0
 //@     loop 0 invariant !closed(ctl) && !sawCancel && len(sent(ctl)) == sleeps * ops
 //@     loop 1 invariant !closed(ctl) && !sawCancel && 0 <= iter && iter <= ops && len(sent(ctl)) == sleeps * ops + iter
